@@ -536,7 +536,7 @@ def run(tier: str, seed: int) -> Result:
             raw_ops, template = state_dirs[(case, ow)]
             if state_in_prefixes(state, raw_ops, template, ow):
                 validated += 1
-            else:
+            elif not viols:
                 raise HarnessError(f'real SIGKILL of {case} (overwrite={ow}) at line #{k} left a state that is not a prefix of the raw-operation log')
             for key, msg in res:
                 viols.append(Violation('C13', key, msg, {'tier': tier, 'clause': key, 'msg': msg}, size=k))
@@ -554,7 +554,9 @@ def run(tier: str, seed: int) -> Result:
         if shutil.which('strace'):
             for case, ow, want, got in pmap(strace_case, [(c, ow) for c in (cases if tier != 'quick' else ['pickle-small']) for ow in (False, True)]):
                 n_strace += 1
-                if want != got:
+                if want != got and not viols:
+                    # (with violations already found the verdict stands; the mismatch then only says that
+                    # this tree reaches the file system in a way the in-process log does not follow)
                     raise HarnessError(f'raw-operation log of {case} (overwrite={ow}) differs from the system calls strace sees: log {want[:12]} ... strace {got[:12]} ...')
         # task types defined in the main script, real spawn (and fork) workers killed mid-overwrite
         mk = [('spawn', k) for k in (range(1, nl + 1) if tier != 'quick' else range(2, nl + 1, 7))] + [('fork', k) for k in (range(1, nl + 1, 3) if tier != 'quick' else range(3, nl + 1, 17))]
